@@ -102,10 +102,15 @@ def run(ck, ix, tier):
                          "units not replaced by the system are kept with their exponent", f"`{norm(a)}` does not keep `{u}` with exponent `{v}`")
             else:
                 ck.check(False, "G-PROV", "_get_base_units|accumulate-shape", fi.loc(a), "", f"unrecognised accumulation `{norm(a)}`")
-        memb = [t for t in ast.walk(f) if isinstance(t, ast.If)]
-        for t in memb[:1]:
-            ck.check(norm(t.test) == f"{u} in bu" or (norm(t.test).startswith(f"{u} in ") and "base_units" in norm(defs.inline(t.test))), "G-PROV",
-                     "_get_base_units|replace-only-declared-units", fi.loc(t), "only units declared by the system are replaced", f"`{norm(t.test)}` is not membership in the system's base_units")
+        # the replacement (`** exponent` accumulation) happens exactly for units declared in the system's base_units table,
+        # the keep-as-is accumulation for the others - whichever way the test is written
+        from .. import shape as _sh14
+        declared = lambda a_: isinstance(a_, ast.Compare) and isinstance(a_.ops[0], ast.In) and norm(a_.left) == u and "base_units" in _sh14.rnorm(a_.comparators[0], fi.node, 2)
+        for a in augs:
+            val = defs.inline(a.value)
+            repl = isinstance(val, ast.BinOp) and isinstance(val.op, ast.Pow)
+            ck.check(_sh14.holds_at(a, fi.node, declared, repl), "G-PROV", "_get_base_units|replace-only-declared-units", fi.loc(a), "only units declared by the system are replaced",
+                     f"`{norm(a)}` is not executed on the {'declared' if repl else 'undeclared'} side of the membership test in the system's base_units")
     convs = [c for c in walk_local(fi.node) if isinstance(c, ast.Call) and call_name(c) in ("convert", "_convert")]
     ck.floor("G-PROV", len(convs), 1, "factor conversion in _get_base_units")
     for c in convs:
@@ -198,36 +203,58 @@ def run(ck, ix, tier):
     fi = ix.func(SO, "System.from_definition")
     ck.analysed(fi)
     defs = defs_of(fi)
-    stores = [a for a in walk_local(fi.node) if isinstance(a, ast.Assign) and any(isinstance(t, ast.Subscript) and norm(t.value) == "base_unit_names" for t in a.targets)]
+    # Solving  new = old**p * prod(other**e)  for old gives  old = new**(1/p) * prod(other**(-e/p)).  Every exponent that
+    # the function computes is one of: 1/p (the new unit), -e/p (the other root units, old excluded), 1/v (bare rule
+    # `new` whose root expansion is old**v) - however the dictionary is assembled (comprehension, loop, literal).
+    from .. import shape as _shs
+    stores = [a_ for a_ in walk_local(fi.node) if isinstance(a_, ast.Assign) and any(isinstance(t, ast.Subscript) and norm(t.value) == "base_unit_names" for t in a_.targets)]
     ck.floor("G-PROV", len(stores), 2, "base_unit_names stores in System.from_definition")
-    for a in stores:
-        v = a.value
-        if isinstance(v, ast.Dict):
-            # bare form:  old = new ** (1 / exponent of old in new's root expansion)
-            ok = len(v.keys) == 1 and norm(v.keys[0]) == "new_unit" and norm(v.values[0]).replace(" ", "") in ("1/value", "value**-1", "1/(value)")
-            ck.check(ok, "G-PROV", "System.from_definition|bare-rule-inverted", fi.loc(a), "old = new ** (1/value)",
-                     f"`{norm(a)}`: for a rule `new` whose root expansion is old**value the replacement must be new**(1/value)")
+    divs = [b_ for b_ in ast.walk(fi.node) if isinstance(b_, ast.BinOp) and isinstance(b_.op, ast.Div)]
+    ck.floor("G-PROV", len(divs), 1, "exponent divisions in System.from_definition")
+    for a_ in stores:
+        if isinstance(a_.value, ast.Dict):
+            for v_ in a_.value.values:
+                ck.check(isinstance(v_, ast.BinOp) and isinstance(v_.op, ast.Div), "G-PROV", "System.from_definition|bare-rule-inverted", fi.loc(a_), "replacement exponent is a reciprocal",
+                         f"`{norm(a_)}`: for a rule `new` whose root expansion is old**value the replacement must be new**(1/value), not new**({norm(v_)})")
+
+    def exponent_of_old(e):
+        """e is (a name for) <expansion of new>[old_unit]"""
+        x = _shs.unalias(e, fi.node)
+        return isinstance(x, ast.Subscript) and norm(x.slice) == "old_unit" and "get_root_func(new_unit)" in _shs.rnorm(x.value, fi.node, 3)
+
+    def popped_exponent(e):
+        """e is the exponent of the single (unit, exponent) item of the root expansion of new (bare rule)"""
+        x = _shs.unalias(e, fi.node)
+        return isinstance(x, ast.Subscript) and "popitem()" in norm(x.value) and norm(x.slice) == "1" and "get_root_func(new_unit)" in _shs.rnorm(x.value, fi.node, 4)
+
+    def other_exponent(e):
+        """e is the exponent variable of a loop/comprehension over <expansion of new>.items() with old_unit excluded"""
+        if not isinstance(e, ast.Name):
+            return False
+        for x in ast.walk(fi.node):
+            tgt, it = (x.target, x.iter) if isinstance(x, (ast.For, ast.comprehension)) else (None, None)
+            if isinstance(tgt, ast.Tuple) and len(tgt.elts) == 2 and norm(tgt.elts[1]) == e.id and norm(it).endswith(".items()") and "get_root_func(new_unit)" in _shs.rnorm(it, fi.node, 3):
+                return True
+        return False
+    excluded = lambda a_: isinstance(a_, ast.Compare) and isinstance(a_.ops[0], ast.Eq) and "old_unit" in (norm(a_.left), norm(a_.comparators[0]))
+    kinds = []
+    for b_ in divs:
+        num, den = b_.left, b_.right
+        if isinstance(num, ast.Constant) and num.value == 1 and exponent_of_old(den):
+            kinds.append("new")
+            ck.ok("G-PROV", "System.from_definition|new-unit-exponent-inverted", fi.loc(b_), "new unit gets exponent 1/p")
+        elif isinstance(num, ast.Constant) and num.value == 1 and popped_exponent(den):
+            kinds.append("bare")
+            ck.ok("G-PROV", "System.from_definition|bare-rule-inverted", fi.loc(b_), "old = new ** (1/value)")
+        elif isinstance(num, ast.UnaryOp) and isinstance(num.op, ast.USub) and other_exponent(num.operand) and exponent_of_old(den):
+            kinds.append("other")
+            ck.check(_shs.holds_at(b_, fi.node, excluded, False), "G-PROV", "System.from_definition|old-unit-excluded", fi.loc(b_), "the replaced unit is excluded", "the replaced unit is not excluded from its own replacement")
+            ck.ok("G-PROV", "System.from_definition|other-units-exponent-inverted", fi.loc(b_), "other root units get exponent -e/p")
         else:
-            comp = defs.inline(v)
-            dc = [c for c in ast.walk(comp) if isinstance(c, ast.DictComp)]
-            if not dc:
-                raise AnalysisError("System.from_definition: unrecognised replacement construction")
-            pexp = norm(defs.inline(ast.parse("new_unit_expanded[old_unit]", mode="eval").body))
-            val = dc[0].value
-            it = dc[0].generators[0]
-            e = norm(it.target.elts[1]) if isinstance(it.target, ast.Tuple) else "?"
-            okv = isinstance(val, ast.BinOp) and isinstance(val.op, ast.Div) and norm(val.left).replace(" ", "") == f"-{e}" and norm(defs.inline(val.right)) == pexp
-            ck.check(okv, "G-PROV", "System.from_definition|other-units-exponent-inverted", fi.loc(a), "other root units get exponent -e/p",
-                     f"`{norm(dc[0].value)}`: solving new = old**p * prod(other**e) for old gives other**(-e/p), p = exponent of old")
-            flt = [norm(i).replace(" ", "") for i in it.ifs]
-            ck.check(any("!=old_unit" in i for i in flt), "G-PROV", "System.from_definition|old-unit-excluded", fi.loc(a), "the replaced unit is excluded", "the replaced unit is not excluded from its own replacement")
-    own = [a for a in walk_local(fi.node) if isinstance(a, ast.Assign) and any(isinstance(t, ast.Subscript) and norm(t.value) == "new_unit_dict" and norm(t.slice) == "new_unit" for t in a.targets)]
-    ck.floor("G-PROV", len(own), 1, "exponent of the new unit in the replacement")
-    for a in own:
-        val = a.value
-        pexp = norm(defs.inline(ast.parse("new_unit_expanded[old_unit]", mode="eval").body))
-        ck.check(isinstance(val, ast.BinOp) and isinstance(val.op, ast.Div) and norm(val.left) == "1" and norm(defs.inline(val.right)) == pexp, "G-PROV", "System.from_definition|new-unit-exponent-inverted", fi.loc(a), "new unit gets exponent 1/p",
-                 f"`{norm(a)}`: the new unit must get exponent 1/p, p = exponent of old in new's expansion")
+            which = "bare-rule-inverted" if "popitem" in _shs.rnorm(den, fi.node, 4) or "popitem" in _shs.rnorm(num, fi.node, 4) else ("new-unit-exponent-inverted" if isinstance(num, ast.Constant) or exponent_of_old(num) else "other-units-exponent-inverted")
+            ck.fail("G-PROV", f"System.from_definition|{which}", fi.loc(b_), f"`{norm(b_)}` is none of 1/p (new unit), -e/p (other root units), 1/v (bare rule), with p the exponent of the replaced unit in the expansion of the new unit: "
+                    "solving new = old**p * prod(other**e) for old gives new**(1/p) * prod(other**(-e/p))")
+    ck.check({"new", "bare", "other"} <= set(kinds), "G-PROV", "System.from_definition|all-three-exponent-forms-present", fi.loc(), "1/p, -e/p and 1/v are all computed", f"only {sorted(set(kinds))} of the exponent forms (new, other, bare) are computed")
     tests = [t for t in walk_local(fi.node) if isinstance(t, ast.If) and "get_root_func(old_unit)" in norm(t.test)]
     ck.check(bool(tests) and all(any(isinstance(r, ast.Raise) for r in ast.walk(t)) for t in tests), "G-DOM", "System.from_definition|old-unit-must-be-root", fi.loc(),
              "a replaced unit that is not a root unit is rejected", "a non-root `old` unit is no longer rejected")
